@@ -5,6 +5,7 @@ package main
 
 import (
 	"fmt"
+	"strconv"
 	"math/bits"
 	"sort"
 	"strings"
@@ -92,17 +93,23 @@ func sext64(v uint64, w int) int64 {
 
 // Builder hash-conses terms. A builder may have a frozen parent (terms created
 // during package initialisation) so that per-path terms can be dropped.
+type constKey struct {
+	w int
+	v uint64
+}
+
 type Builder struct {
 	parent *Builder
 	tab    map[string]*Term
 	ctr    *int // id counter shared by a base builder and the per-path builders derived from it
 	rep    map[*Term]*Term // terms proven equal to a constant under the current path condition
+	consts map[constKey]*Term
 	True   *Term
 	False  *Term
 }
 
 func NewBuilder(parent *Builder) *Builder {
-	b := &Builder{parent: parent, tab: map[string]*Term{}}
+	b := &Builder{parent: parent, tab: map[string]*Term{}, consts: map[constKey]*Term{}}
 	if parent != nil {
 		b.ctr = parent.ctr
 		b.True, b.False = parent.True, parent.False
@@ -116,12 +123,23 @@ func NewBuilder(parent *Builder) *Builder {
 }
 
 func key(t *Term) string {
-	var sb strings.Builder
-	fmt.Fprintf(&sb, "%d.%d.%d.%d.%d.%s", t.Op, t.W, t.Val, t.A, t.B, t.Name)
+	buf := make([]byte, 0, 48)
+	buf = strconv.AppendInt(buf, int64(t.Op), 10)
+	buf = append(buf, '.')
+	buf = strconv.AppendInt(buf, int64(t.W), 10)
+	buf = append(buf, '.')
+	buf = strconv.AppendUint(buf, t.Val, 16)
+	buf = append(buf, '.')
+	buf = strconv.AppendInt(buf, int64(t.A), 10)
+	buf = append(buf, '.')
+	buf = strconv.AppendInt(buf, int64(t.B), 10)
+	buf = append(buf, '.')
+	buf = append(buf, t.Name...)
 	for _, a := range t.Args {
-		fmt.Fprintf(&sb, ",%d", a.id)
+		buf = append(buf, ',')
+		buf = strconv.AppendInt(buf, int64(a.id), 36)
 	}
-	return sb.String()
+	return string(buf)
 }
 
 func (b *Builder) mk(t *Term) *Term {
@@ -164,7 +182,17 @@ func (b *Builder) Const(v uint64, w int) *Term {
 		}
 		return b.False
 	}
-	return b.mk(&Term{Op: OpConst, W: w, Val: v & mask(w)})
+	v &= mask(w)
+	k := constKey{w, v}
+	for bb := b; bb != nil; bb = bb.parent {
+		if x, ok := bb.consts[k]; ok {
+			return x
+		}
+	}
+	t := &Term{Op: OpConst, W: w, Val: v, id: *b.ctr}
+	*b.ctr++
+	b.consts[k] = t
+	return t
 }
 
 func (b *Builder) Bool(v bool) *Term {
